@@ -336,12 +336,17 @@ Violations(m) ==
     UNION {UNION {DefViolations(m, ns, d) : d \in Range(DefsOf(m, ns))} : ns \in Namespaces(m)}
 WellFormed(m) == Violations(m) = {}
 
+\* documentation and annotations written on a member (absent: none)
+DocOf(x) == IF "doc" \in DOMAIN x THEN x.doc ELSE ""
+AnnOf(x) == IF "ann" \in DOMAIN x THEN x.ann ELSE ""
 \* ------------------------------------------------------------- Denote
 \* the API description: per namespace the declarations with what was written (references as
 \* written), plus the documented implicit members
 DenoteDef(m, ns, d) ==
     CASE d.k = "struct" ->
-           [k |-> "struct", n |-> d.n, parent |-> ParentOf(m, ns, d.n), fields |-> d.fields,
+           [k |-> "struct", n |-> d.n, parent |-> ParentOf(m, ns, d.n),
+            fields |-> [i \in DOMAIN d.fields |-> [n |-> d.fields[i].n, t |-> d.fields[i].t, dflt |-> d.fields[i].dflt,
+                                                   doc |-> DocOf(d.fields[i]), ann |-> AnnOf(d.fields[i])]],
             all_fields |-> Flat([i \in DOMAIN Ancestors(m, ns, d.n, NTypes(m)) |->
                                    LET a == Ancestors(m, ns, d.n, NTypes(m))[Len(Ancestors(m, ns, d.n, NTypes(m))) + 1 - i]
                                    IN  FieldNames(LookupT(m, a[1], a[2]))]) \o FieldNames(d),
@@ -355,6 +360,7 @@ DenoteDef(m, ns, d) ==
                      (IF ~d.closed /\ (d.ext.k # "tref" \/ ~IsOpen(m, TargetNs(ns, d.ext), d.ext.n))
                       THEN <<"other">> ELSE <<>>),
             tagtypes |-> [i \in DOMAIN d.tags |-> d.tags[i].t],
+            tagmeta |-> [i \in DOMAIN d.tags |-> [doc |-> DocOf(d.tags[i]), ann |-> AnnOf(d.tags[i])]],
             all_tags |-> Flat([i \in DOMAIN Ancestors(m, ns, d.n, NTypes(m)) |->
                                    LET a == Ancestors(m, ns, d.n, NTypes(m))[Len(Ancestors(m, ns, d.n, NTypes(m))) + 1 - i]
                                    IN  FieldNames(LookupT(m, a[1], a[2]))]) \o FieldNames(d),
